@@ -2,6 +2,7 @@
 import FontVerif.Model.PackedDeltas
 import FontVerif.Model.Iup
 import FontVerif.Model.GvarLayout
+import FontVerif.Drv.C10Data
 namespace FontVerif.Drv.C10
 open FontVerif FontVerif.PackedDeltas
 
@@ -158,6 +159,9 @@ def handle (cmd : String) (args : List String) : Option String :=
     | none =>
       match handleReader cmd args with
       | some r => some r
-      | none => handleGvar cmd args
+      | none =>
+        match handleGvar cmd args with
+        | some r => some r
+        | none => C10Data.handle cmd args
 
 end FontVerif.Drv.C10
